@@ -9,7 +9,7 @@ use std::marker::PhantomData;
 
 pub use pyo3_macros::{pyclass, pyfunction, pymethods, pymodule};
 
-pub const BLOB_CAP: usize = 16;
+pub const BLOB_CAP: usize = 8;
 pub const SEQ_CAP: usize = 4;
 
 pub static mut MODEL_BOUND_EXCEEDED: bool = false;
@@ -27,29 +27,27 @@ pub struct Blob {
 
 impl Blob {
     pub fn new(s: &[u8]) -> Blob {
+        // unrolled on purpose: no loop in model code, so harness unwind bounds are dictated by repository code only
+        let n = s.len();
         let mut data = [0u8; BLOB_CAP];
-        let mut i = 0;
-        while i < BLOB_CAP {
-            if i < s.len() {
-                data[i] = s[i];
-            }
-            i += 1;
+        macro_rules! cp {
+            ($($i:expr),*) => { $( if $i < n { data[$i] = s[$i]; } )* };
         }
-        Blob { len: s.len(), data, src: s.as_ptr() as usize }
+        cp!(0, 1, 2, 3, 4, 5, 6, 7);
+        Blob { len: n, data, src: s.as_ptr() as usize }
     }
     /// Equality on (length, captured prefix); exact when len <= BLOB_CAP.
     pub fn same_content(&self, s: &[u8]) -> bool {
         if self.len != s.len() {
             return false;
         }
-        let mut i = 0;
-        while i < BLOB_CAP {
-            if i < s.len() && self.data[i] != s[i] {
-                return false;
-            }
-            i += 1;
+        let n = s.len();
+        let mut ok = true;
+        macro_rules! cmp {
+            ($($i:expr),*) => { $( if $i < n && self.data[$i] != s[$i] { ok = false; } )* };
         }
-        true
+        cmp!(0, 1, 2, 3, 4, 5, 6, 7);
+        ok
     }
 }
 
